@@ -1,6 +1,7 @@
 //! vmverif — correspondence harness for the Lean model of vm-memory.
 //! usage: vmverif <world> <seed> <n> <outdir> [opts…]   |   vmverif replay <world> <opsfile> <outdir>
 mod bitmap;
+mod guest;
 mod pure;
 mod rng;
 mod slice;
@@ -60,6 +61,12 @@ fn main() {
             slice::run::<Option<RefSlice<'static, AtomicBitmap>>>(&mut rec, &mut rng, k, streams);
             slice::run::<()>(&mut rec, &mut rng, k, streams);
         }
+        "gm" => {
+            rec.ops.push(format!("prof chk={}", chk as u8));
+            rec.outs.push("ok".into());
+            let mode = opts.iter().find(|o| ["mixed", "edit", "exhaustive"].contains(o)).copied().unwrap_or("mixed");
+            guest::run(&mut rec, &mut rng, n, mode);
+        }
         "bitmap" => bitmap::run(&mut rec, &mut rng, n, opts.contains(&"exhaustive")),
         _ => {
             eprintln!("unknown world {}", world);
@@ -79,6 +86,7 @@ enum SlAny {
 }
 
 thread_local! {
+    static GM: std::cell::RefCell<guest::GmWorld> = std::cell::RefCell::new(guest::GmWorld::new());
     static SL: std::cell::RefCell<SlAny> = std::cell::RefCell::new(SlAny::Unit(slice::SliceWorld::empty()));
     static BM: std::cell::RefCell<bitmap::BmWorld> = std::cell::RefCell::new(bitmap::BmWorld::new());
 }
@@ -88,6 +96,7 @@ fn exec_line(rec: &mut Rec, world: &str, line: &str, chk: bool) -> String {
         return "ok".into();
     }
     match world {
+        "gm" => GM.with(|w| w.borrow_mut().exec(rec, line)),
         "slice" => SL.with(|w| {
             // replay: the flavour is named by the `s.new` line
             let mut w = w.borrow_mut();
